@@ -137,8 +137,9 @@ type ChainConfig struct {
 	// RelayersFor lists the counterparty chain names for which the relayer
 	// account is registered at genesis.
 	RelayersFor []string
-	// TibcGenesisOverride, when non-nil, replaces module genesis sections
-	// (used by C16 re-import).
+	// Rules are the routing rules stored at genesis (nil => allow everything, "*,*,*").
+	Rules []string
+	// GenesisOverride, when non-nil, replaces module genesis sections (used by C16 re-import).
 	GenesisOverride map[string]json.RawMessage
 }
 
@@ -209,6 +210,11 @@ func BuildGenesis(app *simapp.SimApp, cfg ChainConfig, vals *cmttypes.ValidatorS
 	for _, n := range names {
 		tibcGen.ClientGenesis.Relayers = append(tibcGen.ClientGenesis.Relayers,
 			clienttypes.IdentifiedRelayers{ChainName: n, Relayers: []string{rel}})
+	}
+	if cfg.Rules == nil {
+		tibcGen.RoutingGenesis.Rules = []string{"*,*,*"}
+	} else {
+		tibcGen.RoutingGenesis.Rules = cfg.Rules
 	}
 	gs[host.ModuleName] = cdc.MustMarshalJSON(&tibcGen)
 
